@@ -28,7 +28,7 @@ theorem step_mono {cfg : Cfg} {s s' : State} (a : Action) (h : step cfg s a = so
   | register c => exact updConn_mono good_cRegister h
   | stamp c => exact updConn_mono good_cStamp h
   | read c n => exact updConn_mono (good_cRead n) h
-  | readErr c f => exact updConn_mono (good_cReadErr _ f) h
+  | readErr c f => exact updConn_mono (good_cReadErr _ _ f) h
   | age c => exact updConn_mono good_cAge h
   | dispatch c => exact updConn_mono (good_cDispatch _) h
   | enqueue c =>
@@ -80,6 +80,11 @@ theorem step_mono {cfg : Cfg} {s s' : State} (a : Action) (h : step cfg s a = so
   | write c i => exact updConn_mono (good_cWrite i) h
   | skip c i => exact updConn_mono (good_cSkip _ i) h
   | dec c i => exact updConn_mono (good_cDec i) h
+  | drainTick c =>
+    simp only [step] at h
+    split at h <;> try contradiction
+    split at h <;> try contradiction
+    exact updConn_mono good_cDrainTick h
   | drainClose c => exact updConn_mono good_cDrainClose h
   | shutdownCall =>
     simp only [step] at h
@@ -246,9 +251,12 @@ theorem nhf_cRead (n : Nat) : NoHandF (cRead n) := nhf_of_reqs_eq (by
   intro k k' h; unfold cRead at h; split at h <;> try contradiction
   split at h <;> try contradiction
   simp only [Option.some.injEq] at h; subst h; rfl)
-theorem nhf_cReadErr (b f : Bool) : NoHandF (cReadErr b f) := nhf_of_reqs_eq (by
+theorem nhf_cReadErr (p b f : Bool) : NoHandF (cReadErr p b f) := nhf_of_reqs_eq (by
   intro k k' h; unfold cReadErr at h; split at h <;> try contradiction
   split at h <;> (simp only [Option.some.injEq] at h; subst h; rfl))
+theorem nhf_cDrainTick : NoHandF cDrainTick := nhf_of_reqs_eq (by
+  intro k k' h; unfold cDrainTick at h; split at h <;> try contradiction
+  simp only [Option.some.injEq] at h; subst h; rfl)
 theorem nhf_cAge : NoHandF cAge := nhf_of_reqs_eq (by
   intro k k' h; unfold cAge at h; simp only [Option.some.injEq] at h; subst h; rfl)
 theorem nhf_cDrainClose : NoHandF cDrainClose := nhf_of_reqs_eq (by
@@ -363,7 +371,7 @@ theorem nohand_step {cfg : Cfg} (hpool : cfg.pool = none) {s s' : State} (a : Ac
   | register c => exact nohand_updConn nhf_cRegister hn h
   | stamp c => exact nohand_updConn nhf_cStamp hn h
   | read c n => exact nohand_updConn (nhf_cRead n) hn h
-  | readErr c f => exact nohand_updConn (nhf_cReadErr _ f) hn h
+  | readErr c f => exact nohand_updConn (nhf_cReadErr _ _ f) hn h
   | age c => exact nohand_updConn nhf_cAge hn h
   | dispatch c => exact nohand_updConn (nhf_cDispatch _) hn h
   | enqueue c => simp [step, hpool] at h
@@ -392,6 +400,11 @@ theorem nohand_step {cfg : Cfg} (hpool : cfg.pool = none) {s s' : State} (a : Ac
   | write c i => exact nohand_updConn (nhf_cWrite i) hn h
   | skip c i => exact nohand_updConn (nhf_cSkip _ i) hn h
   | dec c i => exact nohand_updConn (nhf_cDec i) hn h
+  | drainTick c =>
+    simp only [step] at h
+    split at h <;> try contradiction
+    split at h <;> try contradiction
+    exact nohand_updConn nhf_cDrainTick hn h
   | drainClose c => exact nohand_updConn nhf_cDrainClose hn h
   | shutdownCall =>
     simp only [step] at h
